@@ -420,6 +420,27 @@ def _project(t: Term) -> Optional[Term]:
         r = inst(t[2][0])
         if r is not None:
             return r
+    if k == "idx" and len(t) == 3 and is_term(t[2]) and t[2][0] == "const" and t[2][1] in (0, 1, -1) and is_term(t[1]):
+        # `sorted((a, b))[0]` is min(a, b), `[1]` / `[-1]` is max(a, b)
+        b0 = strip(t[1])
+        if is_term(b0) and b0[0] == "agg" and len(b0) >= 3 and b0[1] == "sorted":
+            inner = strip(b0[2])
+            els = None
+            if is_term(inner) and inner[0] == "bag" and len(inner[1]) == 2 and all(not e[2] and not e[3] for e in inner[1]):
+                els = [e[1] for e in inner[1]]
+            elif is_term(inner) and inner[0] == "tuple" and len(inner[1]) == 2:
+                els = list(inner[1])
+            if els is not None:
+                return ("agg", "min" if t[2][1] == 0 else "max", ("bag", (("elem", els[0], (), ()), ("elem", els[1], (), ())), "args"), ())
+        if is_term(b0) and b0[0] == "call" and len(b0) == 4 and b0[1] == ("glob", "sorted") and len(b0[2]) == 1 and not b0[3]:
+            inner = strip(b0[2][0])
+            els = None
+            if is_term(inner) and inner[0] == "tuple" and len(inner[1]) == 2:
+                els = list(inner[1])
+            elif is_term(inner) and inner[0] == "bag" and len(inner[1]) == 2 and all(not e[2] and not e[3] for e in inner[1]):
+                els = [e[1] for e in inner[1]]
+            if els is not None:
+                return ("agg", "min" if t[2][1] == 0 else "max", ("bag", (("elem", els[0], (), ()), ("elem", els[1], (), ())), "args"), ())
     if k == "attr" and len(t) == 3:
         b = strip(t[1]) if is_term(t[1]) and t[1][0] == "let" else t[1]
         rv = record_values(b)
